@@ -1,7 +1,9 @@
 package checks
 
 import (
+	"encoding/json"
 	"fmt"
+	"math"
 	"sort"
 	"strings"
 	"time"
@@ -855,9 +857,12 @@ func c11Run(c *engine.Ctx) {
 	}
 	// long operands (a library may switch to a set or a sort above some size): x against y hidden among n fillers
 	li2 := 0
-	for _, x := range small {
-		for _, y := range small {
-			for _, n := range []int{15, 16, 17, 40, 130} {
+	// with the spellings that are equal as values and different as text (a set keyed by a serialisation would split them)
+	smallLong := append(append([]any{}, small...), json.Number("1.0"), json.Number("1e0"), json.Number("10e-1"), math.Copysign(0, -1), json.Number("-0"), json.Number("0.0"), []any{json.Number("1.0")}, map[string]any{"a": json.Number("1.00")},
+		json.Number("2.50"), 2.5, json.Number("100000000000000000000"), univ.Big("100000000000000000000"))
+	for _, x := range smallLong {
+		for _, y := range smallLong {
+			for _, n := range []int{15, 16, 17, 40, 130, 300} {
 				li2++
 				if !c.MineIdx(li2) {
 					continue
